@@ -2,7 +2,7 @@
    atomically.  Statements only (model level); histories interleaving
    SET_LOG_BASE, memory-table changes and backend writes are decided by family
    "dmn" against Spec.MemSpec (own page-set oracle over the shared log bytes). *)
-From VV Require Import Base.Bits Base.Rt Base.Val Model.Daemon Proofs.MemProofs Proofs.LogProofs.
+From VV Require Import Base.Bits Base.Rt Base.Val Gen.GenBitmap Model.Daemon Proofs.MemProofs Proofs.LogProofs.
 From Coq Require Import Permutation.
 Open Scope N_scope.
 
@@ -88,3 +88,30 @@ Example C15_example :
   /\ (forall r, In r (m_regs (d_mem (fst (h_add_mem s2 [0; 4096; 2000000; 0; 2])))) -> rg_log r = Some (4, 0, 3))
   /\ store_get (m_fbytes (fst (mem_write (d_mem s2) 69632 [7]))) 4 2 = 2.
 Proof. vm_compute. repeat split; intros r [<-|[<-|[]]]; reflexivity. Qed.
+
+(* ---- over the arithmetic REGENERATED from bitmap.rs on this run (Gen.GenBitmap) ---- *)
+(* AtomicBitmapMmap::new accepts a region exactly when it is non-empty, page-aligned at both ends, does not wrap, and
+   the log has a byte for its highest page; it then keeps the region's first page and its number of pages *)
+Theorem C15_log_size_rule_sound : forall g sz len b n,
+  bm_new g sz len = Some (b, n) ->
+  sz <> 0 /\ g mod 4096 = 0 /\ sz mod 4096 = 0 /\ g + (sz - 1) < 2 ^ 64 /\ ((g + sz - 1) / 4096) / 8 < len
+  /\ b = g / 4096 /\ n = sz / 4096.
+Proof. exact bm_new_spec. Qed.
+Print Assumptions C15_log_size_rule_sound.
+Theorem C15_log_size_rule_complete : forall g sz len,
+  sz <> 0 -> g mod 4096 = 0 -> sz mod 4096 = 0 -> g + (sz - 1) < 2 ^ 64 -> ((g + sz - 1) / 4096) / 8 < len ->
+  bm_new g sz len = Some (g / 4096, sz / 4096).
+Proof. exact bm_new_complete. Qed.
+Print Assumptions C15_log_size_rule_complete.
+(* the pages mark_dirty walks for a write are exactly the pages of the written bytes - none more, none fewer *)
+Theorem C15_pages_of_a_write : forall offset len p,
+  0 < len -> offset + (len - 1) < 2 ^ 64 ->
+  (bm_md_first_page offset len <= p <= bm_md_last_page offset len <-> exists i, i < len /\ p = (offset + i) / 4096).
+Proof. exact md_pages_are_byte_pages. Qed.
+Print Assumptions C15_pages_of_a_write.
+Theorem C15_word_and_mask : forall page, bm_md_word page = page / 8 /\ bm_md_mask page = 2 ^ (page mod 8).
+Proof. exact md_word_mask. Qed.
+Print Assumptions C15_word_and_mask.
+Theorem C15_marking_code_shape : bm_shape_ok = true.
+Proof. exact bm_shape_ok_true. Qed.
+Print Assumptions C15_marking_code_shape.
